@@ -315,6 +315,7 @@ class Pacing:
     def __init__(self):
         self.blocked = set()  # dir names (old or new) changed in this burst
         self.arrived = set()  # dirs that arrived in this burst (may be renamed again at once)
+        self.out_blocked = set()  # out/ names of directories that left the tree in this burst
 
     def _hits(self, p):
         return any(p == b or p.startswith(b + "/") for b in self.blocked)
@@ -325,8 +326,13 @@ class Pacing:
 
     def allows(self, op, model):
         k = op[0]
-        if k in ("sleep", "prebuild") or k.startswith("ext_"):
+        if k in ("sleep", "prebuild"):
             return True
+        if k.startswith("ext_"):
+            # the contents of a directory that has just left the tree are not touched before the stream drained
+            return op[1] not in self.out_blocked and not (k == "ext_rename" and op[2] in self.out_blocked)
+        if k == "move_in" and op[1] in self.out_blocked:
+            return False
         paths = [x for x in op[1:3] if isinstance(x, str)]
         if k == "move_out":
             paths = [op[1]]
@@ -361,6 +367,7 @@ class Pacing:
             self.arrived.add(op[2])
         elif k == "move_out" and model_before.kind(op[1]) == "d":
             self.blocked.add(op[1])
+            self.out_blocked.add(op[2])
         elif k == "move_in" and model_before.out[op[1]][""][0] == "d":
             self.blocked.add(op[2])
             self.arrived.add(op[2])
@@ -426,6 +433,23 @@ def candidate_ops(m: Model, opts):
                 ops.append(("replace", s, d))
         if opts.get("boundary", True):
             ops.append(("move_out", s, None))
+    if opts.get("ext"):
+        for name in sorted(m.out):
+            sub = m.out[name]
+            if sub[""][0] == "d":
+                dirs_o = [r for r, v in sub.items() if v[0] == "d" and (r.count("/") + 1 if r else 0) < maxdepth - 1]
+                for r in dirs_o:
+                    for n in names:
+                        q = join(r, n)
+                        if q not in sub:
+                            ops.append(("ext_create", name, q))
+                            ops.append(("ext_mkdir", name, q))
+                for r, v in sub.items():
+                    if v[0] == "f":
+                        ops.append(("ext_write", name, r))
+                        ops.append(("ext_unlink", name, r))
+            ops.append(("ext_rmtree", name))
+            ops.append(("ext_rename", name, None))
     if opts.get("boundary", True):
         for name in sorted(m.out):
             sub = m.out[name]
@@ -444,7 +468,7 @@ WEIGHT = {
 
 def draw_op(draw, m, pc, opts):
     cands = [op for op in candidate_ops(m, opts) if (op[0] != "move_out" or True)]
-    cands = [op for op in cands if pc.allows(op if op[0] != "move_out" else ("move_out", op[1], "x"), m)]
+    cands = [op for op in cands if pc.allows(op if op[0] not in ("move_out", "ext_rename") else (op[0], op[1], "x"), m)]
     if opts.get("exclude"):
         cands = [op for op in cands if not opts["exclude"](op, m, pc)]
     if not cands:
@@ -460,6 +484,8 @@ def draw_op(draw, m, pc, opts):
     op = draw(st.sampled_from(sub))
     if kind == "move_out":
         op = ("move_out", op[1], f"o{next(m.outn)}")
+    elif kind == "ext_rename":
+        op = ("ext_rename", op[1], f"o{next(m.outn)}")
     elif kind == "makedirs":
         # nested creation burst: the directory plus generated content, issued back to back
         room = opts.get("depth", 3) - (op[1].count("/") + 1)
